@@ -2761,8 +2761,13 @@ class HasTraits(CHasTraits, metaclass=MetaHasTraits):
             return
         locked = info[""]
         locked[name] = None
-        for object, object_name in info[name].values():
+        # A partner may be garbage collected while the change is being
+        # propagated (its weak reference callback then removes it from the
+        # table): iterate over a copy and skip the ones that are gone.
+        for object, object_name in list(info[name].values()):
             object = object()
+            if object is None:
+                continue
             if object_name not in object._get_sync_trait_info()[""]:
                 try:
                     setattr(object, object_name, new)
@@ -2782,8 +2787,10 @@ class HasTraits(CHasTraits, metaclass=MetaHasTraits):
             return
         locked = info[""]
         locked[name] = None
-        for object, object_name in info[name].values():
+        for object, object_name in list(info[name].values()):
             object = object()
+            if object is None:
+                continue
             if object_name not in object._get_sync_trait_info()[""]:
                 try:
                     if event.added or index.step is None:
